@@ -200,6 +200,7 @@ def run(ctx, pid, kinds, n_quick, n_thorough, polite=60, extra_assumptions=()):
         "exhaustive": False,
         "samples": sample or [{"note": "no short history in this run"}],
     })
+    cov.update(getattr(ctx, "extra_cov", {}))
     cov["trusted_base"] += [
         "controlled scheduler (harness/sched): one SUT goroutine runs at a time between trace points; quiescence decided from runtime.Stack",
         "reduction assumption: the code between two consecutive trace points of a thread is atomic w.r.t. other threads (DESIGN 2.3); Go's mutex/cond/channel/context semantics",
